@@ -62,8 +62,9 @@ fn main() {
             rec.outs.push("ok".into());
             // one fifth of the ops per tracking flavour
             use vm_memory::bitmap::{ArcSlice, AtomicBitmap, RefSlice};
-            let k = n / 5 + 1;
+            let k = n / 6 + 1;
             slice::run::<RefSlice<'static, AtomicBitmap>>(&mut rec, &mut rng, 2 * k, streams);
+            slice::run::<slice::ProbeSlice>(&mut rec, &mut rng, k, streams);
             slice::run::<ArcSlice<AtomicBitmap>>(&mut rec, &mut rng, k, streams);
             slice::run::<Option<RefSlice<'static, AtomicBitmap>>>(&mut rec, &mut rng, k, streams);
             slice::run::<()>(&mut rec, &mut rng, k, streams);
@@ -95,6 +96,7 @@ use vm_memory::bitmap::{ArcSlice, AtomicBitmap, RefSlice};
 enum SlAny {
     Ref(slice::SliceWorld<RefSlice<'static, AtomicBitmap>>),
     Arc(slice::SliceWorld<ArcSlice<AtomicBitmap>>),
+    Probe(slice::SliceWorld<slice::ProbeSlice>),
     Some(slice::SliceWorld<Option<RefSlice<'static, AtomicBitmap>>>),
     Unit(slice::SliceWorld<()>),
 }
@@ -135,6 +137,7 @@ fn exec_line(rec: &mut Rec, world: &str, line: &str, chk: bool) -> String {
                 let flav = util::Kv::parse(line).s("flav").to_string();
                 *w = match flav.as_str() {
                     "arc" => SlAny::Arc(slice::SliceWorld::empty()),
+                    "probe" => SlAny::Probe(slice::SliceWorld::empty()),
                     "some" => SlAny::Some(slice::SliceWorld::empty()),
                     "unit" => SlAny::Unit(slice::SliceWorld::empty()),
                     _ => SlAny::Ref(slice::SliceWorld::empty()),
@@ -143,6 +146,7 @@ fn exec_line(rec: &mut Rec, world: &str, line: &str, chk: bool) -> String {
             match &mut *w {
                 SlAny::Ref(x) => x.exec(rec, line),
                 SlAny::Arc(x) => x.exec(rec, line),
+                SlAny::Probe(x) => x.exec(rec, line),
                 SlAny::Some(x) => x.exec(rec, line),
                 SlAny::Unit(x) => x.exec(rec, line),
             }
